@@ -32,7 +32,7 @@ pub fn gen_case(rng: &mut Rng, thorough: bool) -> J {
     if !thorough { cfg.max_width = 3; cfg.max_array = 3; cfg.max_map = 4; }
     let d0 = if rng.chance(1, 3) { 1 } else { 0 };
     let spec = spec::Spec(gen_spec(rng, &cfg, d0));
-    let n_ops = if thorough { 10 + rng.below(60) } else { 4 + rng.below(12) };
+    let n_ops = if thorough { 10 + rng.below(40) } else { 4 + rng.below(12) };
     let init = if rng.chance(1, 2) { spec.initial_value() } else { value::Value(gen_value(rng, &spec.0, &cfg)) };
     let mut path_ctx = PathContext::default();
     path_ctx.add_nodes_for(&init);
@@ -68,7 +68,11 @@ pub fn gen_case(rng: &mut Rng, thorough: bool) -> J {
             Err(e) => { op["mutPanic"] = json!(panic_msg(e)); ops.push(op); break; }
         };
         op["mut"] = enc_value(&out.0);
+        // values in nested resizable maps grow with every operation at probability 1: stop a sequence whose
+        // operations have become very large (the trace line is bounded, nothing is hidden: the ops so far are checked)
+        let big = op.to_string().len() > 150_000;
         ops.push(op);
+        if big { break; }
         if pool.len() < 12 { pool.push(out); } else { let i = rng.below(pool.len() as u64) as usize; pool[i] = out; }
     }
     json!({"mode": "ops", "spec": enc_spec(&spec.0), "init": enc_value(&init.0), "ops": ops})
